@@ -125,6 +125,8 @@ type Conn struct {
 	// ChunkFn, if set, decides per read (argument: bytes available in the head unit).
 	MaxRead int
 	ChunkFn func(avail int) int
+	// CloseDelay makes the first Close() take this long to return.
+	CloseDelay time.Duration
 
 	mu           sync.Mutex
 	changed      chan struct{}
@@ -295,7 +297,13 @@ func (c *Conn) Close() error {
 	}
 	c.broadcastLocked()
 	cb := c.OnClose
+	delay := c.CloseDelay
 	c.mu.Unlock()
+	if first && delay > 0 {
+		// a slow Close (TLS close_notify, proxied connection): reads and writes
+		// already fail, but the call itself takes a while to return
+		time.Sleep(delay)
+	}
 	if first && cb != nil {
 		cb(c)
 	}
